@@ -46,6 +46,7 @@ class Run:
         self.machinery_errors = []
         with open(KNOWN) as f:
             self.known = [k for k in json.load(f)['findings'] if k['property'] == prop]
+        self.fresh_replays = True
 
     # ---- bookkeeping -------------------------------------------------------------------------
     def add_tlc(self, res, name):
@@ -133,6 +134,11 @@ class Run:
             if len(seen) > 25:
                 continue
             os.makedirs(rdir, exist_ok=True)
+            if self.fresh_replays:          # replay files of earlier runs are stale
+                self.fresh_replays = False
+                for old in os.listdir(rdir):
+                    if old.endswith('.json'):
+                        os.remove(os.path.join(rdir, old))
             path = os.path.join(rdir, key + '.json')
             with open(path, 'w') as fh:
                 json.dump({'property': self.prop, 'clause': f['clause'], 'case': f['case'],
